@@ -154,13 +154,26 @@ func c05Check(c *C05Case) Verdict {
 			return bad("C05:started-after-cancel:"+e.Phase, "context was cancelled at %v (during or after %s), yet %s was started afterwards: %v", at, tr[point], e, traceStrings(tr))
 		}
 	}
-	cut := len(pa) < len(pr) || len(tr) < len(ref)
-	if cut {
+	// "cut short this way" = an exec attempt or a node start of the reference is missing; then the
+	// error must be the context's. If only a fallback or post call is missing (an implementation
+	// may stop consulting them once the context is done) the run must still not report success.
+	cut := len(pa) < len(pr)
+	if cut || len(tr) < len(ref) {
 		if err == nil {
 			return bad("C05:cut-short-success", "run was cut short by cancellation inside %s (ran %d of %d callbacks) but reported success", tr[point], len(tr), len(ref))
 		}
-		if !errors.Is(err, ctxErr) {
-			return bad("C05:cut-short-error", "run was cut short by cancellation but its error %q does not match %v", err, ctxErr)
+		if cut && !errors.Is(err, ctxErr) {
+			// One admissible exception: the run's last callback is a failed exec attempt after which
+			// the reference went on to the fallback (the budget was exhausted in both runs) - an
+			// implementation that no longer consults the fallback once the context is done ends the
+			// node, and with it the flow, with that attempt's own error.
+			last := tr[len(tr)-1]
+			ownFailure := last.Phase == "exec" && last.RetErr != nil && len(ref) > len(tr) &&
+				ref[len(tr)].Phase == "fb" && ref[len(tr)].Leaf == last.Leaf && ref[len(tr)].Visit == last.Visit &&
+				errMatches(err, last.RetErr) == ""
+			if !ownFailure {
+				return bad("C05:cut-short-error", "run was cut short by cancellation but its error %q does not match %v", err, ctxErr)
+			}
 		}
 	} else {
 		// nothing was suppressed: the reference outcome or a context error are both fine
@@ -183,7 +196,7 @@ func c05Check(c *C05Case) Verdict {
 
 func checkC05(t *testing.T, c C05Case) Verdict {
 	var v Verdict
-	if f := Bubble(t, func() { v = c05Check(&c) }); f != "" {
+	if f := Bubble(t, func() { v = c05Check(&c) }); f != "" && !goroutinesRemain(f) {
 		return bad("C05:bubble", "%s", f)
 	}
 	return v
